@@ -72,7 +72,7 @@ fn main() {
         for (i, t) in rp["trace"].as_array().unwrap().iter().enumerate() {
             let label = t["op"].as_str().unwrap_or("").to_string();
             let arg: usize = label.trim_end_matches(')').split('(').nth(1).and_then(|x| x.parse().ok()).unwrap_or(0);
-            let op = if label.starts_with("Insert") { Op::Insert(arg) } else if label.starts_with("Delete") { Op::Delete(arg) } else { Op::Clear };
+            let op = if label.starts_with("Insert") { Op::Insert(arg) } else if label.starts_with("Delete") { Op::Delete(arg) } else if label.starts_with("Union") { Op::Union(arg) } else { Op::Clear };
             let picks: Vec<u32> = t["rng_picks"].as_array().map(|a| a.iter().map(|v| v.as_u64().unwrap() as u32).collect()).unwrap_or_default();
             let eo = eopts[t["tail_policy_index"].as_u64().unwrap_or(0) as usize % eopts.len()];
             println!("step {}: {} rng_picks={:?}", i + 1, label, &picks[..picks.len().min(12)]);
